@@ -257,13 +257,38 @@ example : C01.statusVerdict (revEnv exGlue C11.Props.exEnv false C11.Props.exWor
     { exCredSL with statuses := some [{ id := "s", typ := C01.statusListEntryType, purpose := "revocation", index := some 0,
                                          listCred := "https://n0/statuslist/did:a/1" }] } = .softErr := by decide
 
+/-! ### the seam C01 → C02 on the signer (a FINDING about the models)
+
+    C02's theorems (`s2s_token_only_if`, `introspect_active_only_if_issued`, `introspect_faithful`) assume `vp.signer ≠ some ""`
+    ("DIDs that parse are non-empty", `HistWF`).  C01's `presentationSigner` guarantees that in its JSON-LD branch (it tests
+    `d == ""`), but its JWT branch returns `Env.didOfURL kid` unfiltered: with a DID-URL parser that can yield the empty DID the
+    upstream model outputs exactly what the downstream hypothesis excludes.  The theorems of (3) and (4) are therefore stated
+    under the exact extra hypothesis `hdid : ∀ u, base.didOfURL u ≠ some ""` (go-did's `ParseDIDURL` contract) and named `_partial`. -/
+
+theorem signer_seam_witness :
+    (∃ (E : C01.Env) (vp : C01.Pres), C01.presentationSigner E vp = some "") ∧
+    (∀ (E : C01.Env) (vp : C01.Pres), vp.format = .ld → C01.presentationSigner E vp ≠ some "") := by
+  refine ⟨⟨{ C01.Props.exE with didOfURL := fun _ => some "" }, { format := .jwt, jwt := some { kid := "x" } }, by decide⟩, ?_⟩
+  intro E vp hf
+  unfold C01.presentationSigner
+  rw [hf]
+  simp only
+  split
+  · simp
+  · split
+    · rename_i d hd
+      split
+      · simp
+      · rename_i hne; simpa using hne
+    · simp
+
 /-! ## (3) a token is issued only for verified, matching, unrevoked presentations -/
 
 /-- one request: if C02's token endpoint answers 200 to the composed request, then C01's `VerifyVP(vp, true, true, nil)` over
     the revocation world accepted EVERY presentation, C12's `Validate` accepted the submission for the definition the policy
     names for the requested scope, and what introspection later reports as additional claims is exactly the rendering of
     the values C12's `resolveFields` resolved from the credentials C12's `resolve` found in the envelope. -/
-theorem token_step_only_for_verified_matching (x : Ctx) (cfg2 : C02.Cfg)
+theorem token_step_only_for_verified_matching_partial (x : Ctx) (cfg2 : C02.Cfg)
     (hchk : cfg2.emptyVpChecked = true) (httl : cfg2.nonceTtl ≠ 0) (httl' : cfg2.tokenTtl ≠ 0)
     (hdid : ∀ u, x.base.didOfURL u ≠ some "")
     (rw : C11.World) (w w' : C02.World) (now : Nat) (r : Req) (resp : C02.TokenResponse)
@@ -279,13 +304,13 @@ theorem token_step_only_for_verified_matching (x : Ctx) (cfg2 : C02.Cfg)
   · cases hget; rw [hri]
   · cases hget
 
-/-- **token_issued_only_for_verified_matching_unrevoked.**  For every composed history (revocation-layer events and token
+/-- **token_issued_only_for_verified_matching_unrevoked** (`_partial`: under `hdid`, see `signer_seam_witness`).  For every composed history (revocation-layer events and token
     requests in any order) from the empty authorization server: a token that introspection reports active stems from a request
     event of the history such that, in the C11-REACHABLE revocation world of that moment, C01 accepted every presentation of
     the request; no credential of any presentation was revoked in the C11 history so far (`RevokedIn`); C12's `Validate`
     accepted the submission for the scope's definition; and the introspected claims are exactly the rendering of what C12
     resolved (`claims_cannot_override` then keeps them from shadowing a standard member). -/
-theorem token_issued_only_for_verified_matching_unrevoked (x : Ctx) (cfg2 : C02.Cfg) (sha : String → String)
+theorem token_issued_only_for_verified_matching_unrevoked_partial (x : Ctx) (cfg2 : C02.Cfg) (sha : String → String)
     (hchk : cfg2.emptyVpChecked = true) (httl : cfg2.nonceTtl ≠ 0) (httl' : cfg2.tokenTtl ≠ 0)
     (hdid : ∀ u, x.base.didOfURL u ≠ some "")
     (hE : C11.EnvOK x.E11) (rw0 : C11.World) (h0 : C11.WInv x.E11 rw0)
@@ -338,14 +363,14 @@ theorem introspected_claims_are_resolved_fields (x : Ctx) (cfg2 : C02.Cfg) (rw :
 
 /-! ## (4) revocation after issue -/
 
-/-- **revocation_after_issue_does_not_resurrect.**  A token was issued for request `r` (event `req t r` after `pre`).  Later
+/-- **revocation_after_issue_does_not_resurrect** (`_partial`: under `hdid`, see `signer_seam_witness`).  A token was issued for request `r` (event `req t r` after `pre`).  Later
     (`mid`) a credential `c` is revoked in the C11 layer.  Then, after any further history `post`:
       (a) EVERY later token request that presents `c` in any of its presentations is refused — never a 200;
       (b) what the models say about the ALREADY ISSUED token: nothing in C02 connects the token store to the revocation
           layer — its introspection is, at every moment, the same as if nothing had happened after the issue, and until its own
           expiry (`t + tokenValidity`) it is NOT reported inactive.  (The composition states this; it does not invent a
           token-revocation behaviour the Go code does not have.) -/
-theorem revocation_after_issue_does_not_resurrect (x : Ctx) (cfg2 : C02.Cfg) (sha : String → String)
+theorem revocation_after_issue_does_not_resurrect_partial (x : Ctx) (cfg2 : C02.Cfg) (sha : String → String)
     (hchk : cfg2.emptyVpChecked = true) (httl : cfg2.nonceTtl ≠ 0) (httl' : cfg2.tokenTtl ≠ 0)
     (hsame : cfg2.tokenTtl = cfg2.tokenValidity) (hdid : ∀ u, x.base.didOfURL u ≠ some "")
     (hE : C11.EnvOK x.E11) (rw0 : C11.World) (h0 : C11.WInv x.E11 rw0)
